@@ -1891,6 +1891,16 @@ def unit_variance(inj, scratch):
                                                               'a numeral cell denotes the same number under parse::<usize>() and parse::<f64>()'])
 
 
+def unit_wbuf(inj, scratch):
+    rel = 'src/util/wbuf.rs'
+    s = src(rel, scratch)
+    inj.append(rel, H('wbuf.kani.rs'))
+    impl = s.item('impl', r'Write\s+for\s+WritableBuffer')
+    it = s.item('fn', 'write', (impl['open'], impl['close']))
+    return dict(functions=[{'fn': 'WritableBuffer::write / From<WritableBuffer> for String', 'file': rel, 'engine': 'K', 'how': 'whole real functions; postcondition asserted in an appended harness over symbolic chunks',
+                            'sha256_16': sha(s.text_of(it))}], dropped=[])
+
+
 def unit_outputformat(inj, scratch):
     rel = 'src/query.rs'
     s = src(rel, scratch)
